@@ -96,7 +96,11 @@ class HTMLScraper(HTMLReader, BaseHTMLScraper):
     def scrape(self, request, response, link_type=None):
         if not self.is_supported(request=request, response=response):
             return
-        if link_type and link_type != LinkType.html:
+        if link_type and link_type != LinkType.html and \
+                not self._is_declared_html(response):
+            # The link type is a guess made from the spelling of the link
+            # (".../File:Sunset.jpg", "view.php?img=a.png"). What the server
+            # says the document is counts more.
             return
 
         base_url = request.url_info.url
@@ -206,6 +210,16 @@ class HTMLScraper(HTMLReader, BaseHTMLScraper):
                     ))
 
         return {'robots_no_follow': robots_no_follow}
+
+    @classmethod
+    def _is_declared_html(cls, response):
+        '''Return whether the response says that it is a HTML document.'''
+        fields = getattr(response, 'fields', None)
+
+        if not fields:
+            return False
+
+        return 'html' in fields.get('Content-Type', '').lower()
 
     def scrape_file(self, file, encoding=None, base_url=None):
         '''Scrape a file for links.
